@@ -114,7 +114,7 @@ namespace cds { namespace urcu {
     protected:
         //@cond
         general_threaded( size_t nBufferCapacity )
-            : m_Buffer( nBufferCapacity )
+            : m_Buffer( nBufferCapacity > 1 ? nBufferCapacity : 2 )   // the buffer (Vyukov queue) needs at least 2 cells
             , m_nCurEpoch( 1 )
             , m_nCapacity( nBufferCapacity )
         {}
